@@ -435,6 +435,16 @@ type ConwayTransactionWitnessSet struct {
 	WsPlutusV3Scripts  cbor.SetType[common.PlutusV3Script]   `cbor:"7,keyasint,omitempty,omitzero"`
 }
 
+// MarshalCBOR returns the stored CBOR of a decoded ConwayTransactionWitnessSet so that
+// re-serialising it reproduces the wire bytes; an object built in memory is
+// encoded from its fields
+func (x *ConwayTransactionWitnessSet) MarshalCBOR() ([]byte, error) {
+	if x.Cbor() != nil {
+		return x.Cbor(), nil
+	}
+	return cbor.EncodeGeneric(x)
+}
+
 func (w *ConwayTransactionWitnessSet) UnmarshalCBOR(cborData []byte) error {
 	type tConwayTransactionWitnessSet ConwayTransactionWitnessSet
 	var tmp tConwayTransactionWitnessSet
@@ -606,6 +616,16 @@ type ConwayTransactionBody struct {
 	TxProposalProcedures    []ConwayProposalProcedure                     `cbor:"20,keyasint,omitempty"`
 	TxCurrentTreasuryValue  int64                                         `cbor:"21,keyasint,omitempty"`
 	TxDonation              uint64                                        `cbor:"22,keyasint,omitempty"`
+}
+
+// MarshalCBOR returns the stored CBOR of a decoded ConwayTransactionBody so that
+// re-serialising it reproduces the wire bytes; an object built in memory is
+// encoded from its fields
+func (x *ConwayTransactionBody) MarshalCBOR() ([]byte, error) {
+	if x.Cbor() != nil {
+		return x.Cbor(), nil
+	}
+	return cbor.EncodeGeneric(x)
 }
 
 func (b *ConwayTransactionBody) UnmarshalCBOR(cborData []byte) error {
